@@ -1566,12 +1566,12 @@ func runTransactions(txnLock *sync.RWMutex, path string, lockPath *string) error
 			// Skip temporary files, which could be left after unclean shutdown.
 			continue
 		}
-		txnDir = fileops.Join(txnDir, txnSubDirName)
-		if fileops.GetFsType(txnDir) != fileops.Obs {
-			txnDir = fileops.NormalizeDirPath(txnDir)
+		txnPath := fileops.Join(txnDir, txnSubDirName)
+		if fileops.GetFsType(txnPath) != fileops.Obs {
+			txnPath = fileops.NormalizeDirPath(txnPath)
 		}
-		if err := runTransaction(txnLock, path, txnDir, lockPath, nil); err != nil {
-			return fmt.Errorf("cannot run transaction from %q: %w", txnDir, err)
+		if err := runTransaction(txnLock, path, txnPath, lockPath, nil); err != nil {
+			return fmt.Errorf("cannot run transaction from %q: %w", txnPath, err)
 		}
 	}
 	return nil
